@@ -494,4 +494,49 @@ theorem reparse_fuel : ∀ (n : Nat) (s : Str), s.length < n → ∀ ps, parseFu
           simp only [e3, hre (reserialize ps')]
           simp [consP, this]
 
+/-! ### what reaches the markup parser in `_parse_without_formatting` -/
+
+/-- inside a format spec every text is handed over verbatim (regenerated `raw=` arguments) -/
+theorem feedsOk_nested (mk : Str → Except Err Str) : ∀ (d : Nat) (t : Str), feedsOk mk d true t = true := by
+  intro d
+  induction d with
+  | zero => intro t; rfl
+  | succ d ih =>
+    intro t
+    simp only [feedsOk, List.all_eq_true]
+    intro p _
+    cases hf : p.field with
+    | none => simp [feedLit, okB, Gen.literalRawWithout]
+    | some f =>
+      have := ih f.spec
+      simp [feedLit, okB, Gen.literalRawWithout, Gen.fieldRawWithout, Gen.nestedRecursiveWithout, this]
+
+/-- a template whose (brace-doubled) top-level literal texts the markup parser leaves untouched -/
+def MarkupFree (mk : Str → Except Err Str) (t : Str) : Prop :=
+  ∀ p ∈ (parse t).1, mk (doubleLast p.lit) = .ok (doubleLast p.lit)
+
+theorem feedsOk_markupFree (mk : Str → Except Err Str) (d : Nat) (t : Str) (h : MarkupFree mk t) :
+    feedsOk mk (d + 1) false t = true := by
+  simp only [feedsOk, List.all_eq_true]
+  intro p hp
+  have hl : feedLit mk (Gen.literalRawWithout false) (doubleLast p.lit) = .ok (doubleLast p.lit) := by
+    simp [feedLit, Gen.literalRawWithout, h p hp]
+  rw [hl]
+  cases hf : p.field with
+  | none => simp [okB]
+  | some f =>
+    have := feedsOk_nested mk d f.spec
+    simp [okB, feedLit, Gen.fieldRawWithout, Gen.nestedRecursiveWithout, this]
+
+theorem reserializeM_markupFree (mk : Str → Except Err Str) (ps : List Piece)
+    (h : ∀ p ∈ ps, mk (doubleLast p.lit) = .ok (doubleLast p.lit)) : reserializeM mk ps = reserialize ps := by
+  induction ps with
+  | nil => rfl
+  | cons p ps ih =>
+    have hp := h p (List.mem_cons_self ..)
+    have := ih (fun q hq => h q (List.mem_cons_of_mem _ hq))
+    cases hf : p.field <;>
+      simp [reserializeM, reserialize, reserPieceM, reserPiece, fedText, feedLit, Gen.literalRawWithout,
+        Gen.fieldRawWithout, hp, hf, this]
+
 end Format
